@@ -358,7 +358,9 @@ package sio
 // from this very packet.
 //@ func (*clientSocket).onAck
 //@   opt safety off
+//@   opt keep nil
 //@   requires header != nil && s.acks != nil
+//@   requires forall k uint64 :: (k in s.acks) ==> s.acks[k] != nil
 //@   ghost called int = 0
 //@   ghost decoded int = 0
 //@   ghost vals []reflect.Value = nil
@@ -378,7 +380,9 @@ package sio
 
 //@ func (*serverSocket).onAck
 //@   opt safety off
+//@   opt keep nil
 //@   requires header != nil && s.acks != nil
+//@   requires forall k uint64 :: (k in s.acks) ==> s.acks[k] != nil
 //@   ghost called int = 0
 //@   ghost decoded int = 0
 //@   ghost vals []reflect.Value = nil
@@ -795,6 +799,7 @@ package sio
 // An event reaches its handler only after the socket's middlewares accepted it (and the socket is still connected).
 //@ func (*serverSocket).onEvent
 //@   opt safety off
+//@   opt keep nil
 //@   requires handler != nil && header != nil
 //@   ghost mwran int = 0
 //@   ghost mwerr bool = false
@@ -870,6 +875,7 @@ package sio
 // not joined yet goes to connect; every other combination closes the connection and dispatches nothing.
 //@ func (*serverConn).onParserFinish$1
 //@   opt safety off
+//@   opt keep nil
 //@   requires header != nil && c != nil
 //@   ghost looked int = 0
 //@   ghost found bool = false
@@ -901,6 +907,7 @@ package sio
 // Client-side routing: the packet goes to the socket registered under exactly the packet's namespace, or nowhere.
 //@ func (*Manager).onParserFinish
 //@   opt safety off
+//@   opt keep nil
 //@   requires header != nil && m != nil
 //@   ghost looked int = 0
 //@   ghost found bool = false
@@ -1249,6 +1256,7 @@ package sio
 // contract), each handler's onEvent once, in registration order, with this packet's header and decoder.
 //@ func (*serverSocket).onPacket
 //@   opt safety off
+//@   opt keep nil
 //@   requires header != nil
 //@   ghost hs []*eventHandler = nil
 //@   ghost looked int = 0
@@ -1271,6 +1279,7 @@ package sio
 
 //@ func (*clientSocket).onPacket
 //@   opt safety off
+//@   opt keep nil
 //@   requires header != nil
 //@   ghost hs []*eventHandler = nil
 //@   ghost looked int = 0
@@ -1296,6 +1305,7 @@ package sio
 // The handler is handed ALL the values that were decoded for its parameters (arguments equal to those emitted).
 //@ func (*clientSocket).callEvent
 //@   opt safety off
+//@   opt keep nil
 //@   requires handler != nil && header != nil
 //@   ghost called int = 0
 //@   callsite (*clientSocket).setLastOffset
@@ -1428,6 +1438,7 @@ package sio
 // as many as it has, the first ones, whatever their types.
 //@ func (*clientSocket).onEvent
 //@   opt safety off
+//@   opt keep nil
 //@   requires handler != nil && header != nil
 //@   ghost called int = 0
 //@   ghost haspid bool = false
@@ -1459,6 +1470,7 @@ package sio
 // not address it again on the shared connection (a DISCONNECT for it would make the server close the whole connection).
 //@ func (*clientSocket).onConnectError
 //@   opt safety off
+//@   opt keep nil
 //@   callsite decode skip
 //@   callsite (*clientSocket).destroy skip
 //@   callsite onError skip
@@ -1529,6 +1541,8 @@ package sio
 // event) do with the ack function: the first call sends it (with the id and values of that call), later calls do not.
 //@ func (*serverSocket).onPacket$1
 //@   opt safety off
+//@   opt keep nil
+//@   requires s != nil
 //@   ghost n int = 0
 //@   callsite Log skip
 //@   callsite (*serverSocket).sendAckPacket skip
@@ -1538,6 +1552,8 @@ package sio
 //@   ensures !old(sent) ==> n == 1 && sent [C03.srv.ack.first.reply.sent]
 //@ func (*clientSocket).onPacket$1
 //@   opt safety off
+//@   opt keep nil
+//@   requires s != nil
 //@   ghost n int = 0
 //@   callsite Log skip
 //@   callsite (*clientSocket).sendAckPacket skip
